@@ -5,9 +5,10 @@ package c01
 //	A  concurrent callers: groups of independent cases, each evaluated by the full checkCase
 //	   (every Marshal route, Unmarshal, stream Encoder+Decoder on their own buffers, Scanner+Value,
 //	   wkb and ewkb) on separate goroutines (TestPropConcurrent)
-//	C  results are independent values: scribble on returned []byte and decoded geometries (incl. spare
-//	   capacity), repeat the call, compare; two results of the same call, the members of one decoded
-//	   multi-geometry / collection, and the result and the input bytes must not share memory
+//	C  results are independent values: the caller overwrites returned []byte and decoded geometries (elements
+//	   and appends up to capacity), then REPEATS the call: the repeat must return the right value (failure
+//	   otherwise). Whether two results, the members of one decoded value, or a result and its input bytes share
+//	   memory is recorded as a layout note only (soundness rule of round L: a layout fact is not a violation)
 //	   (TestPropIndependence, TestEnumIndependence)
 //	D  noise calls: other kinds / byte orders / SRIDs / Must* / hex helpers / failing decodes and
 //	   same-shape variants of the checked geometry between the checked calls (Case.Noise; TestPropNoise,
@@ -348,6 +349,18 @@ type decodeFn struct {
 	want   orb.Geometry
 }
 
+// layoutNote records a fact about memory layout that is NOT a violation by itself (soundness rule of round L):
+// siblings of one result or two results sharing memory, a result living in its input bytes. They are counted so
+// that the evidence shows them; only a wrong VALUE of a later checked call fails.
+func maxInt(a, b int) int {
+	if a > b {
+		return a
+	}
+	return b
+}
+
+func layoutNote(what string) { stats.Class("layout-note:" + what) }
+
 func checkResultIndependence(d decodeFn, noise func()) error {
 	call := func() (orb.Geometry, []byte, error) {
 		in := append([]byte(nil), d.framed...)
@@ -362,76 +375,76 @@ func checkResultIndependence(d decodeFn, noise func()) error {
 		return fmt.Errorf("%s: %s", d.name, why)
 	}
 	snap := gen.DeepCopy(r1)
-	// the result must not live in the input bytes
+	// layout note only: does the result live in the input bytes?
 	scribbleBytes(in1)
-	if same, why := sameBits(r1, snap); !same {
-		return fmt.Errorf("%s: overwriting the input bytes after the call changed the decoded value (%s): the result aliases its input", d.name, why)
+	if same, _ := sameBits(r1, snap); !same {
+		layoutNote("a decoded value changes when the caller overwrites the input bytes afterwards")
 	}
-	// two results of the same call must not share memory; scribbling on a result must not reach another call's input
 	r2, in2, err := call()
 	if err != nil {
 		return fmt.Errorf("%s (second call): %v", d.name, err)
 	}
+	if same, why := sameBits(r2, d.want); !same {
+		return fmt.Errorf("%s (second call): %s", d.name, why)
+	}
+	// the caller overwrites a value it owns (elements within len, and appends up to the capacity) ...
 	scribbleGeom(r1)
-	if same, why := sameBits(r2, snap); !same {
-		return fmt.Errorf("%s: overwriting the first result (incl. spare capacity) changed the second result of the same call (%s): results share memory", d.name, why)
+	if same, _ := sameBits(r2, snap); !same {
+		layoutNote("two results of the same decode call share memory")
 	}
 	if d.rawIn && !bytes.Equal(in2, d.framed) {
-		return fmt.Errorf("%s: overwriting a decoded value changed the input bytes of another call", d.name)
+		layoutNote("overwriting a decoded value changes the input bytes of another call")
 	}
 	if noise != nil {
 		noise()
 		noise()
 	}
-	// repeat after the scribble (and the noise): the same value again
+	// ... and a LATER call must still return the right value (this is the assertion of class C)
 	r3, _, err := call()
 	if err != nil {
-		return fmt.Errorf("%s (repeat after scribbling on the earlier results): %v", d.name, err)
+		return fmt.Errorf("%s (repeat after the caller overwrote the earlier results): %v", d.name, err)
 	}
 	if same, why := sameBits(r3, snap); !same {
-		return fmt.Errorf("%s: the repeated call returns a different value after the earlier results were overwritten (%s): results are not fresh values", d.name, why)
+		return fmt.Errorf("%s: after the caller overwrote the values returned earlier, a repeat of the same call returns a different value (%s)", d.name, why)
 	}
-	// siblings: scribbling on one member (incl. its spare capacity) must not change another member
-	budget := 16
-	var walk func(path []int) error
-	walk = func(path []int) error {
+	// layout note only: do the members of one result share memory with each other?
+	budget := 8
+	noted := false
+	var walk func(path []int)
+	walk = func(path []int) {
 		ms := members(navigate(snap, path))
-		if len(ms) < 2 && len(path) > 0 {
-			if len(ms) == 1 {
-				return walk(append(append([]int(nil), path...), 0))
-			}
-			return nil
-		}
 		for i := range ms {
-			if budget <= 0 {
-				return nil
+			if budget <= 0 || noted {
+				return
 			}
 			if len(ms) >= 2 {
 				budget--
 				r, _, err := call()
 				if err != nil {
-					return fmt.Errorf("%s (sibling check): %v", d.name, err)
+					return
 				}
 				rm := members(navigate(r, path))
 				scribbleGeom(rm[i])
-				for j := range rm {
+				// re-read the siblings through the parent once (their headers may have been overwritten too);
+				// the neighbours of i are the ones an append reaches first: look at up to 8 on either side
+				after := members(navigate(r, path))
+				for j := maxInt(0, i-8); j < len(after) && j <= i+8; j++ {
 					if j == i {
 						continue
 					}
-					// re-read the sibling through the parent (its header may have been overwritten too)
-					cur := members(navigate(r, path))[j]
-					if same, why := sameBits(cur, ms[j]); !same {
-						return fmt.Errorf("%s: overwriting member %d at path %v (incl. spare capacity) changed sibling %d (%s): members of one result share memory", d.name, i, path, j, why)
+					cur := after[j]
+					if same, _ := sameBits(cur, ms[j]); !same {
+						layoutNote("members of one decoded value share memory (overwriting or appending to one changes a sibling)")
+						noted = true
+						return
 					}
 				}
 			}
-			if err := walk(append(append([]int(nil), path...), i)); err != nil {
-				return err
-			}
+			walk(append(append([]int(nil), path...), i))
 		}
-		return nil
 	}
-	return walk(nil)
+	walk(nil)
+	return nil
 }
 
 func checkBytesIndependence(name string, produce func() ([]byte, error), noise func()) error {
@@ -444,9 +457,13 @@ func checkBytesIndependence(name string, produce func() ([]byte, error), noise f
 	if err != nil {
 		return fmt.Errorf("%s: %v", name, err)
 	}
-	scribbleBytes(b1)
 	if !bytes.Equal(b2, snap) {
-		return fmt.Errorf("%s: overwriting the first returned []byte (incl. spare capacity) changed the second one: results share memory", name)
+		return fmt.Errorf("%s: two calls with the same arguments return different bytes", name)
+	}
+	scribbleBytes(b1) // the caller overwrites a value it owns
+	shared := !bytes.Equal(b2, snap)
+	if shared {
+		layoutNote("two []byte results of the same encode call share memory")
 	}
 	if noise != nil {
 		noise()
@@ -457,10 +474,10 @@ func checkBytesIndependence(name string, produce func() ([]byte, error), noise f
 		return fmt.Errorf("%s: %v", name, err)
 	}
 	if !bytes.Equal(b3, snap) {
-		return fmt.Errorf("%s: the repeated call returns different bytes after the earlier result was overwritten", name)
+		return fmt.Errorf("%s: after the caller overwrote the bytes returned earlier, a repeat of the same call returns different bytes", name)
 	}
-	if !bytes.Equal(b2, snap) {
-		return fmt.Errorf("%s: a later call changed an earlier returned []byte", name)
+	if !shared && !bytes.Equal(b2, snap) {
+		return fmt.Errorf("%s: a later call changed a []byte that an earlier call had returned", name)
 	}
 	return nil
 }
@@ -599,8 +616,8 @@ func hasSiblings(g orb.Geometry) bool {
 }
 
 func TestPropIndependence(t *testing.T) {
-	stats.Assume("result independence (class C): s.Geometry and *dest of ONE scan are the same value by documentation and may share memory; everything else returned by two calls, or as two members of one decoded value, must not (overwriting incl. re-slicing to capacity is what a caller may do with a value it owns)")
-	stats.Check(t, 10000, 300000, func(rt *rapid.T) {
+	stats.Assume("result independence (class C): the assertion is 'the caller overwrites (elements, appends up to capacity) what earlier calls returned, repeats the call, and gets the right value again'; memory shared between two results, between members of one result, or between a result and its input bytes is counted as layout-note:* classes and never fails by itself")
+	stats.Check(t, 8000, 300000, func(rt *rapid.T) {
 		var c Case
 		if rapid.IntRange(0, 3).Draw(rt, "sized") == 0 {
 			cnt := &counter{k: uint64(rapid.Uint32().Draw(rt, "coordbase"))}
